@@ -51,6 +51,8 @@ public:
   bool echo_log = false;
   std::vector<sim_fileop> fileops;
   bool record_fileops = false;
+  bool keep_removed = false;      // copy a file to <name>.removed before removing it (lets a coordinator show a reader
+                                  // the file-system state inside a writer's multi-operation update)
   int crash_after_fileop = -1; // throw sim_crash when fileops.size() reaches this
   std::deque<double> rand_queue;
   long n_rand_calls = 0;
@@ -238,6 +240,13 @@ public:
   int remove_file(char const *filename) override
   {
     fileop("remove", filename);
+    if (keep_removed) {
+      std::ifstream src(filename, std::ios::binary);
+      if (src.good()) {
+        std::ofstream dst(std::string(filename) + ".removed", std::ios::binary | std::ios::trunc);
+        dst << src.rdbuf();
+      }
+    }
     return colvarproxy::remove_file(filename);
   }
   int rename_file(char const *filename, char const *newfilename) override
